@@ -138,10 +138,47 @@ def entryStr (h : Heap) : HEntry → String
 
 def showState (st : HState) : String := " ".intercalate (st.pool.map (entryStr st.heap))
 
+/-- storage shape (see harness/c08 `shape`): which pool values share a backing array and at which relative offset -/
+def liveSlices (st : HState) : List (Option Slice) :=
+  (List.range st.pool.length).map fun i =>
+    if st.dead.contains i then none else
+    match st.pool[i]? with
+    | some (.val _ s) => if s.len == 0 then none else some s
+    | _ => none
+
+def minOff (sls : List (Option Slice)) (a : Nat) : Nat :=
+  sls.foldl (fun m o => match o with
+    | some s => if s.arr == a then (match m with | none => some s.off | some x => some (min x s.off)) else m
+    | none => m) none |>.getD 0
+
+def showShape (st : HState) : String :=
+  let sls := liveSlices st
+  let rec go (i : Nat) (es : List HEntry) (ids : List Nat) (acc : List String) : List String :=
+    match es with
+    | [] => acc.reverse
+    | e :: rest =>
+      match e with
+      | .mark _ => go (i + 1) rest ids ("-" :: acc)
+      | .val _ s =>
+        if st.dead.contains i then go (i + 1) rest ids ("x" :: acc)
+        else if s.len == 0 then go (i + 1) rest ids ("e" :: acc)
+        else
+          let (id, ids') := match ids.findIdx? (· == s.arr) with
+            | some k => (k, ids)
+            | none => (ids.length, ids ++ [s.arr])
+          go (i + 1) rest ids' (s!"{id}.{s.off - minOff sls s.arr}" :: acc)
+  " ".intercalate (go 0 st.pool [] [])
+
+def usesAt : Op → Bool
+  | .at _ _ => true
+  | _ => false
+
 def exec : List Sexp → String
   | .atom "hist" :: steps =>
     match steps.mapM opOf with
-    | some ops => showState (runHeap goPolicy Pcore.Generated.sliceIdioms ops)
+    | some ops =>
+      let st := runHeap goPolicy Pcore.Generated.sliceIdioms ops
+      showState st ++ " | shape " ++ (if ops.any usesAt then "n/a" else showShape st)
     | none => "bad-op"
   | _ => "bad-op"
 
